@@ -91,6 +91,41 @@ func covered(dep string, key map[string]bool) bool {
 	return key[prm+".*"]
 }
 
+// forwardTarget: fn only forwards to a helper of its package (`return r.helper(ctx, p, "none", f)`): returns the helper
+// and, for each of its parameters, the argument fn passes. (fn, nil) when fn does its work itself.
+func forwardTarget(fn *ssa.Function) (*ssa.Function, map[*ssa.Parameter]ssa.Value) {
+	rets := core.ReturnsOf(fn)
+	if len(rets) != 1 {
+		return fn, nil
+	}
+	var call *ssa.Call
+	for _, v := range core.RetVals(rets[0]) {
+		e, ok := v.(*ssa.Extract)
+		if !ok {
+			return fn, nil
+		}
+		c, ok := e.Tuple.(*ssa.Call)
+		if !ok || (call != nil && c != call) {
+			return fn, nil
+		}
+		call = c
+	}
+	if call == nil {
+		return fn, nil
+	}
+	h := core.Callee(call)
+	if h == nil || h.Blocks == nil || h.Pkg != fn.Pkg {
+		return fn, nil
+	}
+	sub := map[*ssa.Parameter]ssa.Value{}
+	for i, prm := range h.Params {
+		if i < len(call.Call.Args) {
+			sub[prm] = call.Call.Args[i]
+		}
+	}
+	return h, sub
+}
+
 // checkResolverCaches: R10.1 (shared as R11.7): every sync.Map cache of the Resolver is keyed by everything - and by
 // the whole of everything - its cached value is computed from, and read under the key it is written under.
 func checkResolverCaches(p *core.Prog, r *core.Result, rule string) {
@@ -524,25 +559,69 @@ func runC10(p *core.Prog, r *core.Result) {
 			if len(vals) != 2 {
 				continue
 			}
-			rootList := core.DependsOn(vals[0], core.SliceOpts{}, func(v ssa.Value) bool { return core.IsField(v, pkgMvs, "Reqs", "root") })
-			emptyPath := p.FactsAt(ret).Find(func(c ssa.Value, val bool) bool {
-				bo, ok := c.(*ssa.BinOp)
-				if !ok || bo.Op != token.EQL || !val {
-					return false
+			isRootField := func(v ssa.Value) bool { return core.IsField(v, pkgMvs, "Reqs", "root") }
+			isEmptyPath := func(fs []xfact) bool {
+				for _, f := range fs {
+					bo, ok := f.Cond.(*ssa.BinOp)
+					if !ok || bo.Op != token.EQL || !f.Val {
+						continue
+					}
+					s, okc := core.ConstString(bo.Y)
+					if !okc || s != "" {
+						continue
+					}
+					// p.Path, in Required or inside a predicate helper that is handed p
+					x := bo.X
+					if paramDeps(Required, x)[pp.Name()+".Path"] {
+						return true
+					}
+					if host := bo.Parent(); host != Required {
+						for _, q := range host.Params {
+							a := f.Arg(q)
+							if ld, isLd := a.(*ssa.UnOp); isLd && ld.Op == token.MUL {
+								if sv := core.SingleStore(ld.X); sv != nil {
+									a = sv
+								}
+							}
+							if a == ssa.Value(pp) && paramDeps(host, x)[q.Name()+".Path"] {
+								return true
+							}
+						}
+					}
 				}
-				s, okc := core.ConstString(bo.Y)
-				if !okc || s != "" {
-					return false
-				}
-				d := paramDeps(Required, bo.X)
-				return d[pp.Name()+".Path"]
-			})
-			if rootList && emptyPath {
-				okReq = true
+				return false
 			}
-			if rootList && !emptyPath {
-				okReq = false
-				r.Bad("R10.2", "internal/mvs.(*Reqs).Required#root-list", p.InstrPos(ret), "the root's requirement list is returned for a non-root project")
+			// the returned list may be selected by a variable (proj := r.root; if !root { proj = summary }): one
+			// alternative per incoming edge, each with the facts of its edge
+			type alt struct {
+				root  bool
+				facts []xfact
+			}
+			var alts []alt
+			var selector *ssa.Phi
+			for x := range core.BackwardSlice(vals[0], core.SliceOpts{}) {
+				if ph, ok := x.(*ssa.Phi); ok && selector == nil {
+					selector = ph
+				}
+			}
+			if selector != nil {
+				efs := p.PhiEdgeFacts(selector)
+				for i, e := range selector.Edges {
+					fs := append(xfacts(p, ret), xfactsOf(p, efs[i])...)
+					alts = append(alts, alt{core.DependsOn(e, core.SliceOpts{}, isRootField), fs})
+				}
+			} else {
+				alts = append(alts, alt{core.DependsOn(vals[0], core.SliceOpts{}, isRootField), xfacts(p, ret)})
+			}
+			for _, a := range alts {
+				emptyPath := isEmptyPath(a.facts)
+				if a.root && emptyPath {
+					okReq = true
+				}
+				if a.root && !emptyPath {
+					okReq = false
+					r.Bad("R10.2", "internal/mvs.(*Reqs).Required#root-list", p.InstrPos(ret), "the root's requirement list is returned for a non-root project")
+				}
 			}
 		}
 		r.Check(okReq, "R10.2", "internal/mvs.(*Reqs).Required#root", p.Pos(Required.Pos()), "the root's requirements are returned exactly for the empty path", "Required does not answer the root's requirement list for the empty path")
@@ -635,28 +714,51 @@ func runC10(p *core.Prog, r *core.Result) {
 				if ia == nil {
 					continue
 				}
-				fromSortedKeys := core.DependsOn(ia.X, core.SliceOpts{ThroughCall: func(*ssa.Call) bool { return true }}, func(x ssa.Value) bool {
+				fromKeys := core.DependsOn(ia.X, core.SliceOpts{ThroughCall: func(*ssa.Call) bool { return true }}, func(x ssa.Value) bool {
 					return core.LoadOfField(x, pkgProj, "Config", "Requirements")
-				}) && core.DependsOn(ia.X, core.SliceOpts{}, func(x ssa.Value) bool {
+				})
+				sortedValue := core.DependsOn(ia.X, core.SliceOpts{}, func(x ssa.Value) bool {
 					cc, isCC := x.(*ssa.Call)
 					return isCC && core.Callee(cc) != nil && strings.HasPrefix(core.CalleeKey(core.Callee(cc)), "slices.Sort")
 				})
+				// or sorted in place (slices.Sort / sort.Strings on that very slice) before the loop that reads it
+				sortedInPlace := false
+				for _, sc := range core.Calls(c.Parent()) {
+					h := core.Callee(sc)
+					if h == nil {
+						continue
+					}
+					k := core.CalleeKey(h)
+					if k != "slices.Sort" && k != "sort.Strings" && k != "slices.SortFunc" && k != "sort.Slice" && k != "sort.SliceStable" {
+						continue
+					}
+					if sc.Common().Args[0] == ia.X && core.Dominates(sc.(ssa.Instruction), ia) {
+						sortedInPlace = true
+					}
+				}
+				fromSortedKeys := fromKeys && (sortedValue || sortedInPlace)
 				if fromSortedKeys && p.LoopIndexCoversAll(ia.Index, ia.X, c, func(a, b ssa.Value) bool { return a == b }) && c.Block() == ia.Block() {
 					good = true
 				}
 			}
 			return good
 		}
-		core.Instrs(rp, func(in ssa.Instruction) {
-			st, isSt := in.(*ssa.Store)
-			if !isSt || !core.IsField(st.Addr, pkgMvs, "mvsProject", "Requirements") {
-				return
+		// the summary is built in resolveProject or in a helper of the package it calls
+		for f := range staticClosure(p, rp) {
+			if f.Pkg != rp.Pkg {
+				continue
 			}
-			at = st
-			if listOK(st.Val, 0) {
-				ok = true
-			}
-		})
+			core.Instrs(f, func(in ssa.Instruction) {
+				st, isSt := in.(*ssa.Store)
+				if !isSt || !core.IsField(st.Addr, pkgMvs, "mvsProject", "Requirements") {
+					return
+				}
+				at = st
+				if listOK(st.Val, 0) {
+					ok = true
+				}
+			})
+		}
 		if at == nil {
 			r.Unk("R10.5", "internal/mvs.(*Resolver).resolveProject#summary", p.Pos(rp.Pos()), "store of mvsProject.Requirements not found")
 		} else {
@@ -803,6 +905,16 @@ func runC11(p *core.Prog, r *core.Result) {
 		impls++
 		pp := fn.Params[len(fn.Params)-1]
 		nRet := 0
+		origFn := fn
+		body, sub := forwardTarget(fn)
+		if sub != nil {
+			for prm, a := range sub {
+				if a == ssa.Value(pp) || isLoadOfParamSpill(a, pp) {
+					pp = prm
+				}
+			}
+			fn = body
+		}
 		for _, ret := range core.ReturnsOf(fn) {
 			vals := core.RetVals(ret)
 			if len(vals) != 2 || !core.IsNilConst(vals[1]) {
@@ -841,6 +953,12 @@ func runC11(p *core.Prog, r *core.Result) {
 							consts[s] = true
 						}
 					}
+					// a parameter of the shared helper: the constant the callback passes for it
+					if prm, ok := v.(*ssa.Parameter); ok && sub != nil {
+						if s, ok := core.ConstString(sub[prm]); ok {
+							consts[s] = true
+						}
+					}
 				}
 			}
 			var cl []string
@@ -857,6 +975,7 @@ func runC11(p *core.Prog, r *core.Result) {
 				r.OK("R11.1", construct, p.InstrPos(ret), "answers \"none\" when no earlier version exists (constants reaching the result: %s)", strings.Join(cl, ", "))
 			}
 		}
+		fn = origFn
 		r.Floor("R11.1", nRet, 1, "non-root successful returns of "+fname(fn))
 		// root returned unchanged, for Previous and the sibling Upgrade
 		for _, name := range []string{"Previous", "Upgrade"} {
@@ -865,24 +984,50 @@ func runC11(p *core.Prog, r *core.Result) {
 			if g == nil {
 				continue
 			}
+			gname := fname(g)
 			gp := g.Params[len(g.Params)-1]
+			if gb, gsub := forwardTarget(g); gsub != nil {
+				for prm, a := range gsub {
+					if a == ssa.Value(gp) || isLoadOfParamSpill(a, gp) {
+						gp = prm
+					}
+				}
+				g = gb
+			}
 			ok := false
 			for _, ret := range core.ReturnsOf(g) {
 				vals := core.RetVals(ret)
 				if len(vals) == 2 && core.IsNilConst(vals[1]) && (core.Unwrap(vals[0]) == ssa.Value(gp) || isLoadOfParamSpill(vals[0], gp)) {
-					if p.FactsAt(ret).Find(func(c ssa.Value, val bool) bool {
-						bo, okb := c.(*ssa.BinOp)
-						if !okb || bo.Op != token.EQL || !val {
-							return false
+					for _, f := range xfacts(p, ret) {
+						bo, okb := f.Cond.(*ssa.BinOp)
+						if !okb || bo.Op != token.EQL || !f.Val {
+							continue
 						}
 						s, okc := core.ConstString(bo.Y)
-						return okc && s == "" && paramDeps(g, bo.X)[gp.Name()+".Path"]
-					}) {
-						ok = true
+						if !okc || s != "" {
+							continue
+						}
+						if paramDeps(g, bo.X)[gp.Name()+".Path"] {
+							ok = true
+						}
+						// inside a predicate helper that is handed the module version (isRoot(p))
+						if host := bo.Parent(); host != g {
+							for _, q := range host.Params {
+								a := f.Arg(q)
+								if ld, isLd := a.(*ssa.UnOp); isLd && ld.Op == token.MUL {
+									if sv := core.SingleStore(ld.X); sv != nil {
+										a = sv
+									}
+								}
+								if a == ssa.Value(gp) && paramDeps(host, bo.X)[q.Name()+".Path"] {
+									ok = true
+								}
+							}
+						}
 					}
 				}
 			}
-			r.Check(ok, "R11.1", fmt.Sprintf("%s#root-unchanged", fname(g)), p.Pos(g.Pos()), "the root (empty path) is returned unchanged", name+" does not return the root unchanged")
+			r.Check(ok, "R11.1", fmt.Sprintf("%s#root-unchanged", gname), p.Pos(g.Pos()), "the root (empty path) is returned unchanged", name+" does not return the root unchanged")
 		}
 	}
 	r.Floor("R11.1", impls, 1, "in-module implementations of the MVS Previous callback")
